@@ -50,6 +50,7 @@ def strategy(tier):
         "proxy": st.integers(0, len(PROXY_PREFIX) - 1),
         "cut": st.integers(0, 400),
         "consume": st.sampled_from([0, 0, 1, 3, 7]),
+        "cut_mode": st.sampled_from(["one", "one", "after-last-chunk", "every-64", "after-every-crlf"]),
     })
 
 
@@ -57,6 +58,18 @@ def run_case(case):
     stream = case["stream"].encode("latin-1")
     cfg = cfg_for(case.get("cfg", 0))
     cuts = [case["cut"]] if case.get("cut") else []
+    mode = case.get("cut_mode", "one")
+    if mode == "after-last-chunk":
+        # read boundaries right after every last-chunk line "0 CRLF" (i.e. inside / in front of a trailer section) and a bit later
+        k = (case.get("cut", 0) % 5)
+        pos = stream.find(b"\r\n0\r\n")
+        while pos >= 0 and len(cuts) < 12:
+            cuts += [pos + 5, pos + 5 + 3 + 4 * k]
+            pos = stream.find(b"\r\n0\r\n", pos + 1)
+    elif mode == "every-64":
+        cuts = list(range(64 - case.get("cut", 0) % 64 or 64, len(stream), 64))
+    elif mode == "after-every-crlf":
+        cuts = [i + 2 for i in range(len(stream)) if stream[i:i + 2] == b"\r\n"][:200]
     pre = b""
     if CFGS[case.get("cfg", 0)].get("proxy_protocol"):
         # PROXY protocol v1 line in front of the first request (peer 127.0.0.1): config 5 allows the peer, config 6 does not
@@ -72,6 +85,7 @@ def run_case(case):
             return out
         for r in reqs:      # offsets are relative to the stream after the PROXY line
             r["end"] -= len(pre)
+        cuts = [c + len(pre) for c in cuts]
     out = judge(stream, reqs, terminal)
     if not out.violations and "consume" in case:
         # same connection, but the application reads little or nothing of each body: the requests
